@@ -635,6 +635,11 @@ class Tr:
                 return f"({old} * {r})"
             raise Unsupported(f"{self.fname}: assignment operator {op}")
 
+        if lhs[0] == "unary" and lhs[1] == "*" and lhs[2][0] == "path" and len(lhs[2][1]) == 1 \
+                and lhs[2][1][0] in getattr(self.tb, "deref_assign", {}) and op == "=":
+            # `*r = v` through a reference obtained from a modelled container: a state update of that container
+            svar, fmt = self.tb.deref_assign[lhs[2][1][0]]
+            return self.ex(rhs, ctx, lambda r: ("let", svar, fmt.format(lname(lhs[2][1][0]), self.par(r)), k("()")))
         if op == "-=":
             # overflow-checked profile: `x -= r` panics when r > x
             if not (lhs[0] == "field" and lhs[1][0] == "path" and len(lhs[1][1]) == 1):
